@@ -194,6 +194,19 @@ func Run(seed int64, goroutines, perG int, buggyShared bool) []Event {
 	}
 	shared = crypto.NewExpandMsgXOFKMAC128("verif-c19")
 	kmac, _ = hash.NewKMAC_128(kmacKey, []byte("cust"), 64)
+	// the shared hashers carry a pending stream (bytes written, not yet summed): the listed operations only ComputeHash, which
+	// leaves the stream of a KMAC hasher untouched ("hashers passed as arguments are left unmodified")
+	pendA, pendB := rb(100), rb(37)
+	if seed%2 == 0 {
+		refA := crypto.NewExpandMsgXOFKMAC128("verif-c19")
+		refA.Write(pendA)
+		refB, _ := hash.NewKMAC_128(kmacKey, []byte("cust"), 64)
+		refB.Write(pendB)
+		events = append(events, Event{E: "seq", Key: "hasher.PendingStream/shared", Result: dig(refA.SumHash()), ArgsUnchanged: true},
+			Event{E: "seq", Key: "hasher.PendingStream/kmac", Result: dig(refB.SumHash()), ArgsUnchanged: true})
+		shared.Write(pendA)
+		kmac.Write(pendB)
+	}
 	for i := range ecSK {
 		a := ecSK[i].Algorithm()
 		ecSK[i], _ = crypto.DecodePrivateKey(a, ecSK[i].Encode())
@@ -269,6 +282,10 @@ func Run(seed int64, goroutines, perG int, buggyShared bool) []Event {
 	wg.Wait()
 	for _, l := range logs {
 		events = append(events, l...)
+	}
+	if seed%2 == 0 {
+		events = append(events, Event{E: "conc", Key: "hasher.PendingStream/shared", Result: dig(shared.SumHash()), ArgsUnchanged: true, G: 0},
+			Event{E: "conc", Key: "hasher.PendingStream/kmac", Result: dig(kmac.SumHash()), ArgsUnchanged: true, G: 0})
 	}
 	return events
 }
